@@ -31,6 +31,14 @@ def run_case(case):
 	if res.primary_match is None and exp['primary_is_closest'] is False:
 		act['primary_is_closest'] = False
 	ok = exp == act and float(res.closest_match.distance) == d
+	# "default" classification: what a caller gets without asking for a mode - classify() without the strict argument and the
+	# parameter object query() builds by default
+	from gambit.query import QueryParams
+	res_d = classify(genomes, dists)
+	dflt = {'predicted': tid(taxa, res_d.predicted_taxon), 'next': tid(taxa, res_d.next_taxon), 'params_strict': QueryParams().classify_strict}
+	if dflt != {'predicted': act['predicted'], 'next': act['next'], 'params_strict': False}:
+		ok = False
+		act = dict(act, default_mode=dflt)
 	return {'ok': bool(ok), 'expected': exp, 'actual': act}
 
 
